@@ -1313,6 +1313,27 @@ func (x *Exec) do1(line string) (res string, leanLine string) {
 	case "tadderrlist":
 		x.tables[idOf(toks[1])].AddErrorList(scratchErrs(toks[2]))
 		return "ok", line
+	case "tadderrself", "rowadderrself":
+		// the caller extends the list the container handed out and gives it back: the argument
+		// shares its backing array with the container's own list
+		var cur []error
+		if toks[0] == "tadderrself" {
+			cur = x.tables[idOf(toks[1])].Errors()
+		} else {
+			cur = x.rows[idOf(toks[1])].Errors()
+		}
+		ids := []string{}
+		for _, e := range cur {
+			ids = append(ids, strconv.Itoa(errID(e)))
+		}
+		ids = append(ids, toks[2])
+		l := append(cur, mkErr(atoi(toks[2])))
+		if toks[0] == "tadderrself" {
+			x.tables[idOf(toks[1])].AddErrorList(l)
+			return "ok", "tadderrlist " + toks[1] + " " + strings.Join(ids, ",")
+		}
+		x.rows[idOf(toks[1])].AddErrorList(l)
+		return "ok", "rowadderrlist " + toks[1] + " " + strings.Join(ids, ",")
 	case "obs":
 		return x.obsTable(idOf(toks[1])), line
 	case "rowobs":
